@@ -123,6 +123,23 @@ def replay_reinforce(tuples, C, viol, samples):
             if kind == "critic" and any(not near(g, e) for g, e in zip(critic.V.grad.view(-1).tolist(), gX)):
                 bad.append("d loss/d value %s, expected %s (baseline must be detached in the advantage)"
                            % (critic.V.grad.view(-1).tolist(), [str(g) for g in gX]))
+            if kind in ("extra", "exp") and j == len(hist) - 1:
+                # integer reward scaling (reward_scale=2): the ADVANTAGE (after the baseline subtraction) is divided by 2
+                if "scaled" not in mods:
+                    mods["scaled"] = REINFORCE(env, pol, baseline=NoBaseline(), reward_scale=2)
+                    mods["scaled"].log_dict = lambda *a, **k: None
+                ms = mods["scaled"]
+                if kind == "exp":
+                    ms.baseline = ExponentialBaseline(beta=beta)
+                    for jj in range(j):
+                        ms.baseline.eval(None, torch.tensor(hist[jj][0], dtype=torch.float32))
+                else:
+                    ms.baseline = NoBaseline()
+                ll2 = torch.tensor([-float(x) for x in Lneg], requires_grad=True)
+                o2 = ms.calculate_loss(TensorDict({}, batch_size=[n]), batch, {}, reward.clone(), ll2)
+                o2["loss"].backward()
+                if not near(o2["loss"], loss / 2) or any(not near(g, e / 2) for g, e in zip(ll2.grad.tolist(), gL)):
+                    bad.append("reward_scale=2: loss %s grad %s, surrogate/2 = %s %s" % (float(o2["loss"]), ll2.grad.tolist(), loss / 2, [str(g / 2) for g in gL]))
             if kind == "shared":
                 # the SymNCO loss uses the same shared-baseline surrogate along a dimension
                 r2 = reward.view(K, B).t().contiguous()
